@@ -356,6 +356,10 @@ type TypeOps struct {
 	MakeSl func(n int) Sl
 	// MakeSS makes per-channel slices with the given lengths (<0: nil).
 	MakeSS func(lens []int) SS
+	// MakeSlHidden makes a slice of n elements whose backing array has `extra`
+	// more elements behind it (spare capacity); it returns the visible slice
+	// and the whole backing array for inspection.
+	MakeSlHidden func(n, extra int) (Sl, Sl)
 	// MakeSSHidden makes per-channel slices like MakeSS, but the outer slice
 	// has spare capacity holding `hidden` further allocated rows: it returns
 	// the visible [][]T (len(lens) rows) and the whole backing (visible +
@@ -409,6 +413,10 @@ func mkOps[T signal.SignalTypes](name string, named bool, base int) *TypeOps {
 				}
 			}
 			return &gss[T]{s: s, ti: ti}
+		},
+		MakeSlHidden: func(n, extra int) (Sl, Sl) {
+			all := make([]T, n+extra)
+			return &gsl[T]{s: all[:n], ti: ti}, &gsl[T]{s: all, ti: ti}
 		},
 		MakeSSHidden: func(lens, hidden []int) (SS, SS) {
 			all := make([][]T, len(lens)+len(hidden))
